@@ -35,6 +35,7 @@ inductive Val where
   | num (x : FV)           -- float64-kinded number Value
   | str (s : List Nat)     -- Go string, UTF-8 bytes
   | recv                   -- the receiver object itself (objectValue(thisObject))
+  | obj (id : Nat)         -- a scripted object: its valueOf/toString is played by `Ops.conv`
 deriving DecidableEq, Repr, Inhabited
 
 structure Env where
@@ -50,6 +51,7 @@ def toFloat (E : Env) : Val → FV
   | .num x => x
   | .str s => E.pn s
   | .recv => .nan           -- ToPrimitive of the receiver is not modelled; never generated as a numeric argument
+  | .obj _ => .nan          -- objects are converted by `Ops.conv` before any pure conversion sees them
 
 /-- Value.bool (value_boolean.go:10) -/
 def toBool : Val → Bool
@@ -59,6 +61,7 @@ def toBool : Val → Bool
   | .num x => !(isNaN x || isZero x)
   | .str s => s.length != 0
   | .recv => true
+  | .obj _ => true
 
 def maxInt64 : Int := 2^63 - 1
 def minInt64 : Int := -(2^63)
@@ -116,6 +119,7 @@ def sameValue (E : Env) (x y : Val) : Bool :=
   | .str a, .str b => a == b
   | .bool a, .bool b => a == b
   | .recv, .recv => true
+  | .obj a, .obj b => a == b
   | .int _, .int _ | .int _, .num _ | .num _, .int _ | .num _, .num _ =>
     let fx := toFloat E x
     let fy := toFloat E y
@@ -132,6 +136,7 @@ def strictEquals (E : Env) (x y : Val) : Bool :=
   | .str a, .str b => a == b
   | .bool a, .bool b => a == b
   | .recv, .recv => true
+  | .obj a, .obj b => a == b
   | .int _, .int _ | .int _, .num _ | .num _, .int _ | .num _, .num _ =>
     let fx := toFloat E x
     let fy := toFloat E y
@@ -478,6 +483,8 @@ structure Ops (σ : Type) where
   putLen : Val → M σ Unit             -- thisObject.put("length", v, true)
   call : List Val → M σ Val           -- iterator.call(…) with the given argument list
   isArr : σ → Bool                    -- isArray(thisObject)
+  lenRead : M σ Unit                  -- what reading `length` does besides yielding `len` (valueOf of an object-valued length)
+  conv : Val → M σ Val                -- an argument to a primitive (Value.number() / Value.string() of an object runs script)
 
 /-- a value returned by a builtin -/
 inductive Ret where
@@ -498,24 +505,32 @@ def pushLoop : List Val → Nat → M σ Nat
   | [], index => pure index
   | item :: rest, index => do O.put index item; pushLoop rest (index + 1)
 
-def push (items : List Val) : M σ Ret := fun s =>
-  (do
-    let index ← pushLoop O items (O.len s)
-    O.putLen (.int index)
-    pure (Ret.val (.int index))) s
+def pushCore (length : Nat) (items : List Val) : M σ Ret := do
+  let index ← pushLoop O items length
+  O.putLen (.int index)
+  pure (Ret.val (.int index))
+
+/-- every builtin starts with `length := toUint32(thisObject.get("length"))` unless noted -/
+def readLen : M σ Nat := do O.lenRead; M.read O.len
+
+def push (items : List Val) : M σ Ret := do
+  let length ← readLen O
+  pushCore O length items
 
 /-- builtinArrayPop (builtin_array.go:130) -/
-def pop : M σ Ret := fun s =>
-  let length := O.len s
+def popCore (length : Nat) : M σ Ret := fun s =>
   if length = 0 then
     (do O.putLen (.int 0); pure (Ret.val .undef)) s
   else
     let last := O.get s (length - 1)
     (do O.del (length - 1); O.putLen (.int (length - 1 : Nat)); pure (Ret.val last)) s
 
+def pop : M σ Ret := do
+  let length ← readLen O
+  popCore O length
+
 /-- builtinArrayShift (builtin_array.go:96) -/
-def shift : M σ Ret := fun s =>
-  let length := O.len s
+def shiftCore (length : Nat) : M σ Ret := fun s =>
   if length = 0 then
     (do O.putLen (.int 0); pure (Ret.val .undef)) s
   else
@@ -526,14 +541,17 @@ def shift : M σ Ret := fun s =>
       O.putLen (.int (length - 1 : Nat))
       pure (Ret.val first)) s
 
+def shift : M σ Ret := do
+  let length ← readLen O
+  shiftCore O length
+
 /-- put the items at consecutive indices starting at `at` -/
 def putItems : List Val → Nat → M σ Unit
   | [], _ => pure ()
   | item :: rest, i => do O.put i item; putItems rest (i + 1)
 
 /-- builtinArrayUnshift (builtin_array.go:272) -/
-def unshift (items : List Val) : M σ Ret := fun s =>
-  let length := O.len s
+def unshiftCore (length : Nat) (items : List Val) : M σ Ret := fun s =>
   let itemCount := items.length
   (do
     forDown (fun i => moveStep O i (i + itemCount)) 0 length      -- index = i+1: from = index-1, to = index+itemCount-1
@@ -541,9 +559,12 @@ def unshift (items : List Val) : M σ Ret := fun s =>
     O.putLen (.int (length + itemCount : Nat))
     pure (Ret.val (.int (length + itemCount : Nat)))) s
 
-/-- builtinArraySlice (builtin_array.go:249) -/
-def slice (args : List Val) : M σ Ret := fun s =>
-  let length := O.len s
+def unshift (items : List Val) : M σ Ret := do
+  let length ← readLen O
+  unshiftCore O length items
+
+/-- builtinArraySlice (builtin_array.go:249), on converted arguments -/
+def sliceCore (length : Nat) (args : List Val) : M σ Ret := fun s =>
   let (start, stop) := rangeStartEnd E args length
   if start ≥ stop then .ok (Ret.arr []) s
   else
@@ -551,10 +572,29 @@ def slice (args : List Val) : M σ Ret := fun s =>
     .ok (Ret.arr ((List.range sliceLength).map fun index =>
       if O.has s (index + start.toNat) then some (O.get s (index + start.toNat)) else none)) s     -- emptyValue
 
-/-- builtinArrayIndexOf (builtin_array.go:460) -/
-def indexOf (args : List Val) : M σ Ret := fun s =>
+/-- a converted position as a number: `undefined` from an object's valueOf counts as NaN, it is not "no argument" -/
+def numPrim (p : Val) : Val := if p = .undef then .num .nan else p
+
+/-- rangeStartEnd's conversions (otto_.go:97): start first; end only if there is one and it is not undefined -/
+def sliceArgs (args : List Val) : M σ (List Val) := do
+  let p0 ← O.conv (argAt args 0)
+  if args.length = 1 then pure [p0]
+  else
+    let endValue := argAt args 1
+    if endValue = .undef then pure [p0, .undef]
+    else do
+      let p1 ← O.conv endValue
+      pure [p0, numPrim p1]
+
+def slice (args : List Val) : M σ Ret := do
+  let length ← readLen O
+  let pargs ← sliceArgs O args
+  sliceCore O E length pargs
+
+/-- builtinArrayIndexOf (builtin_array.go:460), on a converted fromIndex -/
+def indexOfCore (len : Nat) (args : List Val) : M σ Ret := fun s =>
   let matchValue := argAt args 0
-  let length : Int := O.len s
+  let length : Int := len
   if length > 0 then
     let index : Int := if args.length > 1 then toI64 E (argAt args 1) else 0
     let index : Int :=
@@ -567,6 +607,19 @@ def indexOf (args : List Val) : M σ Ret := fun s =>
       | none => .ok (Ret.val (.int (-1))) s
     else .ok (Ret.val (.int (-1))) s
   else .ok (Ret.val (.int (-1))) s
+
+/-- convert the argument at position `i` if it was passed (Value.number() on an object runs its valueOf) -/
+def convAt (args : List Val) (i : Nat) : M σ (List Val) :=
+  if args.length > i then do
+    let p ← O.conv (argAt args i)
+    pure (args.set i p)
+  else pure args
+
+def indexOf (args : List Val) : M σ Ret := do
+  let length ← readLen O
+  -- `if length > 0 { … index = call.Argument(1).number().int64 … }`
+  let pargs ← if length > 0 then convAt O args 1 else pure args
+  indexOfCore O E length pargs
 
 /-- `for j := lo; j < lo+n; j++ { if p j { return j } }` -/
 def searchUp (p : Nat → Bool) : Nat → Nat → Option Nat
@@ -594,10 +647,13 @@ def reverseStep (lower upper : Nat) : M σ Unit := fun s =>
     (do O.del lower; O.put upper value) s
   else .ok () s
 
-def reverse : M σ Ret := fun s =>
-  let length := O.len s
+def reverseCore (length : Nat) : M σ Ret := fun s =>
   let middle := length / 2
   (do forUp (fun lower => reverseStep O lower (length - lower - 1)) 0 middle; pure (Ret.val .recv)) s
+
+def reverse : M σ Ret := do
+  let length ← readLen O
+  reverseCore O length
 
 /-- strings.Join -/
 def goJoin : List (List Nat) → List Nat → List Nat
@@ -605,11 +661,10 @@ def goJoin : List (List Nat) → List Nat → List Nat
   | [a], _ => a
   | a :: r, sep => a ++ sep ++ goJoin r sep
 
-/-- builtinArrayJoin (builtin_array.go:143) -/
-def join (args : List Val) : M σ Ret := fun s =>
+/-- builtinArrayJoin (builtin_array.go:143), on a converted separator -/
+def joinCore (length : Nat) (args : List Val) : M σ Ret := fun s =>
   let argument := argAt args 0
   let separator := if argument ≠ .undef then E.ts argument else [44]
-  let length := O.len s
   if length = 0 then .ok (Ret.val (.str [])) s
   else
     let stringList := (List.range length).map fun index =>
@@ -618,6 +673,15 @@ def join (args : List Val) : M σ Ret := fun s =>
       | .null => []
       | value => E.ts value
     .ok (Ret.val (.str (goJoin stringList separator))) s
+
+/-- the separator is converted (`argument.string()`) before `length` is read -/
+def join (args : List Val) : M σ Ret := do
+  let pargs ← if argAt args 0 ≠ .undef then (do
+      let p ← O.conv (argAt args 0)
+      pure (args.set 0 (.str (E.ts p))))       -- separator = argument.string()
+    else pure args
+  let length ← readLen O
+  joinCore O E length pargs
 
 /-- an argument of concat: a primitive / non-array value, or an array given by its elements as
     [[HasProperty]]/[[Get]] see them (`none` = absent) -/
@@ -640,14 +704,14 @@ def concat (items : List CArg) : M σ Ret := fun s =>
   let rest : List (Option Val) := items.flatMap concatItem
   .ok (Ret.arr (thisPart ++ rest)) s
 
-/-- builtinArraySplice (builtin_array.go:166) -/
-def splice (args : List Val) : M σ Ret := fun s =>
-  let length : Int := O.len s
+/-- builtinArraySplice (builtin_array.go:166), on converted start / deleteCount -/
+def spliceCore (len : Nat) (args : List Val) : M σ Ret := fun s =>
+  let length : Int := len
   let start := valueToRangeIndex E (argAt args 0) length false
   let deleteCount :=
     if args.length > 1 then valueToRangeIndex E (argAt args 1) (length - start) true
     else if args.length = 0 then 0 else length - start
-  let length := O.len s
+  let length := len
   let start := start.toNat
   let deleteCount := deleteCount.toNat
   let valueArray : List (Option Val) := (List.range deleteCount).map fun index =>
@@ -666,15 +730,21 @@ def splice (args : List Val) : M σ Ret := fun s =>
     O.putLen (.int ((length : Int) + itemCount - deleteCount))
     pure (Ret.arr valueArray)) s
 
+def splice (args : List Val) : M σ Ret := do
+  let length ← readLen O
+  let a1 ← convAt O args 0
+  let a2 ← convAt O a1 1
+  spliceCore O E length a2
+
 /-- `return uint32Value(index)` / `return intValue(-1)` -/
 def indexRet : Option Nat → Ret
   | some j => .val (.int j)
   | none => .val (.int (-1))
 
-/-- builtinArrayLastIndexOf (builtin_array.go:487) -/
-def lastIndexOf (args : List Val) : M σ Ret := fun s =>
+/-- builtinArrayLastIndexOf (builtin_array.go:487), on a converted fromIndex -/
+def lastIndexOfCore (len : Nat) (args : List Val) : M σ Ret := fun s =>
   let matchValue := argAt args 0
-  let length : Int := O.len s
+  let length : Int := len
   let index : Int := if args.length > 1 then toI64 E (argAt args 1) else length - 1
   let index : Int := if 0 > index then index + length else index
   let search (from_ : Int) : Res σ Ret :=
@@ -683,10 +753,21 @@ def lastIndexOf (args : List Val) : M σ Ret := fun s =>
   else if 0 > index then .ok (indexRet none) s
   else search index
 
+/-- fromIndex is converted whatever the length -/
+def lastIndexOf (args : List Val) : M σ Ret := do
+  let length ← readLen O
+  let pargs ← convAt O args 1
+  lastIndexOfCore O E length pargs
+
+/-- the callback builtins test `iterator.isCallable()` before they read `length` -/
+def iterate (callable : Bool) (core : Nat → M σ Ret) : M σ Ret :=
+  if !callable then M.throw .type
+  else do
+    let length ← readLen O
+    core length
+
 /-- builtinArrayEvery (builtin_array.go:514) -/
-def every (callable : Bool) : M σ Ret := fun s =>
-  if !callable then .err .type s else
-  let length := O.len s
+def everyCore (length : Nat) : M σ Ret := fun s =>
   (do
     let r ← findUp (fun index => fun s' =>
       if O.has s' index then
@@ -697,10 +778,10 @@ def every (callable : Bool) : M σ Ret := fun s =>
     | some _ => pure (Ret.val (.bool false))
     | none => pure (Ret.val (.bool true))) s
 
+def every (callable : Bool) : M σ Ret := iterate O callable (everyCore O)
+
 /-- builtinArraySome (builtin_array.go:534) -/
-def some_ (callable : Bool) : M σ Ret := fun s =>
-  if !callable then .err .type s else
-  let length := O.len s
+def someCore (length : Nat) : M σ Ret := fun s =>
   (do
     let r ← findUp (fun index => fun s' =>
       if O.has s' index then
@@ -711,20 +792,20 @@ def some_ (callable : Bool) : M σ Ret := fun s =>
     | some _ => pure (Ret.val (.bool true))
     | none => pure (Ret.val (.bool false))) s
 
+def some_ (callable : Bool) : M σ Ret := iterate O callable (someCore O)
+
 /-- builtinArrayForEach (builtin_array.go:553) -/
-def forEach (callable : Bool) : M σ Ret := fun s =>
-  if !callable then .err .type s else
-  let length := O.len s
+def forEachCore (length : Nat) : M σ Ret := fun s =>
   (do
     forUp (fun index => fun s' =>
       if O.has s' index then (do let _ ← O.call [O.get s' index, .int index, .recv]; pure ()) s'
       else .ok () s') 0 length
     pure (Ret.val .undef)) s
 
+def forEach (callable : Bool) : M σ Ret := iterate O callable (forEachCore O)
+
 /-- builtinArrayMap (builtin_array.go:569) -/
-def map (callable : Bool) : M σ Ret := fun s =>
-  if !callable then .err .type s else
-  let length := O.len s
+def mapCore (length : Nat) : M σ Ret := fun s =>
   (do
     let values ← foldUp (fun index (values : List (Option Val)) => fun s' =>
       if O.has s' index then
@@ -732,10 +813,10 @@ def map (callable : Bool) : M σ Ret := fun s =>
       else .ok (values ++ [none]) s') 0 length []      -- values[index] = emptyValue
     pure (Ret.arr values)) s
 
+def map (callable : Bool) : M σ Ret := iterate O callable (mapCore O)
+
 /-- builtinArrayFilter (builtin_array.go:589) -/
-def filter (callable : Bool) : M σ Ret := fun s =>
-  if !callable then .err .type s else
-  let length := O.len s
+def filterCore (length : Nat) : M σ Ret := fun s =>
   (do
     let values ← foldUp (fun index (values : List (Option Val)) => fun s' =>
       if O.has s' index then
@@ -745,12 +826,12 @@ def filter (callable : Bool) : M σ Ret := fun s =>
       else .ok values s') 0 length []
     pure (Ret.arr values)) s
 
+def filter (callable : Bool) : M σ Ret := iterate O callable (filterCore O)
+
 /-- builtinArrayReduce (builtin_array.go:611); `args` = the arguments after the callback -/
-def reduce (callable : Bool) (args : List Val) : M σ Ret := fun s =>
-  if !callable then .err .type s else
+def reduceCore (args : List Val) (length : Nat) : M σ Ret := fun s =>
   let initial := args.length > 0
   let start := argAt args 0
-  let length := O.len s
   if length > 0 ∨ initial then
     let (accumulator, index) : Val × Nat :=
       if !initial then
@@ -766,12 +847,12 @@ def reduce (callable : Bool) (args : List Val) : M σ Ret := fun s =>
       pure (Ret.val acc)) s
   else .err .type s
 
+def reduce (callable : Bool) (args : List Val) : M σ Ret := iterate O callable (reduceCore O args)
+
 /-- builtinArrayReduceRight (builtin_array.go:646) -/
-def reduceRight (callable : Bool) (args : List Val) : M σ Ret := fun s =>
-  if !callable then .err .type s else
+def reduceRightCore (args : List Val) (length : Nat) : M σ Ret := fun s =>
   let initial := args.length > 0
   let start := argAt args 0
-  let length := O.len s
   if length > 0 ∨ initial then
     let (accumulator, count) : Val × Nat :=        -- count = index + 1
       if !initial then
@@ -786,6 +867,8 @@ def reduceRight (callable : Bool) (args : List Val) : M σ Ret := fun s =>
         else .ok accumulator s') 0 count accumulator
       pure (Ret.val acc)) s
   else .err .type s
+
+def reduceRight (callable : Bool) (args : List Val) : M σ Ret := iterate O callable (reduceRightCore O args)
 
 /-- Go string comparison `a < b` (bytes) -/
 def bytesLt : List Nat → List Nat → Bool
@@ -868,20 +951,40 @@ def sortQuick (cmp : SortCmp) : Nat → Nat → Nat → M σ Unit
     else pure ()
 
 /-- builtinArraySort (builtin_array.go:447); `callable` = comparefn is undefined or callable -/
-def sort (callable : Bool) (cmp : SortCmp) : M σ Ret := fun s =>
-  let length := O.len s
+def sortCore (callable : Bool) (cmp : SortCmp) (length : Nat) : M σ Ret := fun s =>
   if !callable then .err .type s
   else if length > 1 then (do sortQuick O E cmp length 0 (length - 1); pure (Ret.val .recv)) s
   else .ok (Ret.val .recv) s
 
+def sort (callable : Bool) (cmp : SortCmp) : M σ Ret := do
+  let length ← readLen O
+  sortCore O E callable cmp length
+
 end Methods
 
-/-! ## The concrete instance: an object plus the callback script and call log -/
+/-! ## The concrete instance: an object plus the scripts (callback results, object conversions) and the log -/
+
+/-- what a scripted object's valueOf/toString does to the receiver before it returns -/
+inductive Eff where
+  | none
+  | push (v : Val)          -- a[a.length] = v
+  | setLen (v : Val)        -- a.length = v
+  | del (k : Nat)           -- delete a[k]
+deriving Repr, Inhabited
+
+/-- one scripted conversion: an effect, then a primitive result or an exception -/
+structure Conv where
+  eff : Eff := .none
+  res : Option Val := some .undef     -- `none` = throw
+  throwRange : Bool := false           -- … a RangeError instead of a TypeError
+deriving Repr, Inhabited
 
 structure St where
   o : Obj
-  log : List (List Val) := []       -- argument lists of the callback invocations, newest first
+  log : List (List Val) := []       -- callback argument lists and `[obj]` for each conversion of a scripted object, newest first
   rets : List Val := []             -- scripted return values of the callback, consumed in order
+  script : List Conv := []          -- scripted conversions, consumed in order by whichever object is converted next
+  lenPrim : Option Val := none      -- the primitive an object-valued `length` was converted to by `lenRead`
 deriving Repr, Inhabited
 
 def liftObj {α : Type} (m : M Obj α) : M St α := fun s =>
@@ -894,9 +997,45 @@ def scriptedCall (args : List Val) : M St Val := fun s =>
   | r :: rest => .ok r { s with log := args :: s.log, rets := rest }
   | [] => .ok .undef { s with log := args :: s.log }
 
+/-- the conversion of a value to a primitive: a scripted object logs itself, plays the next script entry
+    (effect through the given [[Put]]/[[Delete]], non-strict), and returns or throws; primitives are unchanged -/
+def scriptedConv (putF : Key → Val → Bool → M Obj Unit) (delF : Key → Bool → M Obj Bool) (lenOf : Obj → Nat)
+    (v : Val) : M St Val := fun s =>
+  match v with
+  | .obj id =>
+    let s1 := { s with log := [Val.obj id] :: s.log }
+    match s1.script with
+    | [] => .ok .undef s1
+    | c :: rest =>
+      let s2 := { s1 with script := rest }
+      let r : Res St Unit :=
+        match c.eff with
+        | .none => .ok () s2
+        | .push x => liftObj (putF (.idx (lenOf s2.o)) x false) s2
+        | .setLen x => liftObj (putF .length x false) s2
+        | .del k => liftObj (do let _ ← delF (.idx k) false; pure ()) s2
+      match r with
+      | .err e s3 => .err e s3
+      | .ok _ s3 =>
+        match c.res with
+        | some p => .ok p s3
+        | none => .err (if c.throwRange then .range else .type) s3
+  | p => .ok p s
+
+/-- reading `length`: an object value is converted (ToUint32 runs its valueOf) and the primitive remembered -/
+def scriptedLenRead (getLen : Obj → Val) (conv : Val → M St Val) : M St Unit := fun s =>
+  match getLen s.o with
+  | .obj id =>
+    match conv (.obj id) s with
+    | .ok p s' => .ok () { s' with lenPrim := some p }
+    | .err e s' => .err e s'
+  | _ => .ok () s
+
 /-- the operations as otto performs them on a real object -/
 def modelOps (E : Env) : Ops St where
-  len := fun s => toUint32 E (objGet s.o .length)
+  len := fun s => match s.lenPrim with
+    | some p => toUint32 E p
+    | none => toUint32 E (objGet s.o .length)
   has := fun s k => objHas s.o (.idx k)
   get := fun s k => objGet s.o (.idx k)
   put := fun k v => liftObj (objectPut E (.idx k) v true)
@@ -904,5 +1043,8 @@ def modelOps (E : Env) : Ops St where
   putLen := fun v => liftObj (objectPut E .length v true)
   call := scriptedCall
   isArr := fun s => s.o.isArr
+  lenRead := scriptedLenRead (fun o => objGet o .length)
+    (scriptedConv (objectPut E) objectDelete (fun o => toUint32 E (objGet o .length)))
+  conv := scriptedConv (objectPut E) objectDelete (fun o => toUint32 E (objGet o .length))
 
 end OttoVerif.C08
